@@ -429,6 +429,19 @@ def check_pair_row(ctx, fail_, where, row, res, key, t0, t1, p, multi_key=None):
             ctx.observe("polyploid: switches != s + 2f (identity is stated/proved for diploid only)")
     if any(float(row[x]) != 0 for x in ("all_switches", "blockwise_hamming", "blockwise_diff_genotypes")):
         nontrivial = True
+    # the rate columns are the quotients of the count columns (nan when nothing was assessed)
+    longest = int(row["largestblock_assessed_pairs"]) + 1 if int(row["largestblock_assessed_pairs"]) > 0 else D["longest_len"]
+    for rate, num, den in (("all_switch_rate", float(row["all_switches"]), int(row["all_assessed_pairs"])),
+                           ("all_switchflip_rate", float(sum(parse_sf(row["all_switchflips"]))), int(row["all_assessed_pairs"])),
+                           ("blockwise_hamming_rate", float(row["blockwise_hamming"]), int(row["covered_variants"])),
+                           ("blockwise_diff_genotypes_rate", float(row["blockwise_diff_genotypes"]), int(row["covered_variants"])),
+                           ("largestblock_switch_rate", float(row["largestblock_switches"]), int(row["largestblock_assessed_pairs"])),
+                           ("largestblock_switchflip_rate", float(sum(parse_sf(row["largestblock_switchflips"]))), int(row["largestblock_assessed_pairs"])),
+                           ("largestblock_hamming_rate", float(row["largestblock_hamming"]), longest),
+                           ("largestblock_diff_genotypes_rate", float(row["largestblock_diff_genotypes"]), longest)):
+        got_rate = float(row[rate])
+        if (den == 0) != math.isnan(got_rate) or (den and abs(got_rate - num / den) > 1e-9):
+            fail(where + f"{rate} = {row[rate]} is not {num}/{den}", "cli-rate")
     if p == 2:
         # BED rows = switch positions
         exp_bed = []
@@ -490,6 +503,11 @@ def check_cli(ctx, scen, d, n_relabel, replay_relabelled=None):
     nontrivial = False
     model_reqs = []
     for c in scen.chroms:
+        if not all(scen.files[f].get(c) for f in range(k)):
+            # a chromosome without a record in some file is not common to all VCFs: it is rightly not compared
+            if any(kk[0] == c for kk in res["rows"]):
+                fail(f"--tsv-pairwise has rows for {c} although not every file has records on it", "cli-unexpected-row")
+            continue
         for i in range(k):
             for j in range(i + 1, k):
                 row = res["rows"].get((c, i, j))
